@@ -238,3 +238,5 @@ META = {
     "outside_claim": ["more than 3 samples", "strings other than the atoms of the pool"],
     "assumptions": ["models are compared as sets of (field, optional?, type-as-set); references are compared by the key set of the target"],
 }
+if isinstance(META.get("bounds"), dict) and "quick" in META["bounds"]:
+    META["bounds"]["quick"] += '; 3 models over a 4-key universe with the real comparators (3 policies, 2 orders); literal-limit kinds as samples; one string field over 1-16 samples with 9 order / repetition variants'
